@@ -446,7 +446,7 @@ func c04SpecUnenc(mid uint64, body []byte) []byte {
 }
 
 func init() {
-	register(&Prop{Name: "c04", Gen: c04Gen, Exec: c04Exec, Judge: c04Judge,
+	register(&Prop{Name: "c04", Stateless: true, Gen: c04Gen, Exec: c04Exec, Judge: c04Judge,
 		Setup: func(g *G) { c04G = g; envListen() },
 		Teardown: func() {
 			envUnlisten()
